@@ -33,6 +33,7 @@ CONSTANTS
     InitTreat,       \* treated-as table at start (factory table plus levels registered by the driver)
     InitErrDev,      \* error-device set at start
     WLevels,         \* severities for which per-level writers are explored
+    MaxList,         \* bound on the length of attribute / writer / context-key lists in the exhaustive model
     Acts             \* enabled action families (subset of AllActs)
 
 VARIABLE st
@@ -203,6 +204,12 @@ Dest(s, l, r) ==
     ELSE IF ErrClass(r, s.errdev) THEN s.cfg[l].we
     ELSE s.cfg[l].wn
 
+\* C07 (own attributes only; the full assembly is in the Log action): last occurrence of a key
+\* wins, ascending key order.  Attributes are <<key, value>> pairs with integer keys.
+AKeys(as) == {as[i][1] : i \in DOMAIN as}
+LastVal(as, k) == as[CHOOSE i \in DOMAIN as : as[i][1] = k /\ \A j \in DOMAIN as : j > i => as[j][1] # k][2]
+Merge(as) == LET ks == SetToSortSeq(AKeys(as), <) IN [i \in 1..Len(ks) |-> <<ks[i], LastVal(as, ks[i])>>]
+
 \* C01: does logger l emit a record of severity r
 Emits(s, l, r) == Admit(s.cfg[l].level, r, s.dbg, s.treat)
 
@@ -228,8 +235,18 @@ ArgB == {ab[2] : ab \in ArgPairs}
 
 \* one named action per public call, so that TLC's state-graph dump labels every edge with the
 \* call and its arguments
-Set(l, k, a, b) == "Set" \in Acts /\ <<a, b>> \in SetterArgs[k] /\ Do("Set", l, k, a, b)
-With(l, k, a, b) == "With" \in Acts /\ st.n < MaxLoggers /\ <<a, b>> \in SetterArgs[k] /\ Do("With", l, k, a, b)
+\* lists grow without bound in the library; the exhaustive model stops appending at MaxList
+Room(l, k, b) ==
+    /\ l \in Live(st)
+    /\ k = "Attrs" => Len(st.cfg[l].attrs) < MaxList
+    /\ k = "CtxKeys" => Len(st.cfg[l].ctx) < MaxList
+    /\ k = "AddWriter" => Len(st.cfg[l].wn) < MaxList
+    /\ k = "AddErrorWriter" => Len(st.cfg[l].we) < MaxList
+    /\ k = "AddLevelWriter" => Len(st.cfg[l].wl[b]) < MaxList
+WithKinds == {"JSONMode", "ColorMode", "UTCMode", "TimeFormat", "Level", "Attrs", "Skip", "CtxKeys", "Writer", "ErrorWriter"}
+
+Set(l, k, a, b) == "Set" \in Acts /\ <<a, b>> \in SetterArgs[k] /\ Room(l, k, b) /\ Do("Set", l, k, a, b)
+With(l, k, a, b) == "With" \in Acts /\ k \in WithKinds /\ st.n < MaxLoggers /\ <<a, b>> \in SetterArgs[k] /\ Do("With", l, k, a, b)
 New(l, nm, oi) == "New" \in Acts /\ st.n < MaxLoggers /\ Do("New", l, nm, oi, 0)
 NewDetached(nm, oi) == "NewDetached" \in Acts /\ st.n < MaxLoggers /\ Do("NewDetached", 0, nm, oi, 0)
 PkgSetLevel(v) == "PkgSetLevel" \in Acts /\ "Level" \in DOMAIN SetterArgs /\ <<v, 0>> \in SetterArgs["Level"] /\ Do("PkgSetLevel", 0, "", v, 0)
